@@ -24,7 +24,7 @@ CHECKS = {
  "C16": ("model_checking", "differential exploration: every (state, I/O action) through std::io and through embedded-io(-async), three feature builds",
          "From every state of C14's fixpoint space every I/O action is run through std::io and through the embedded trait families compiled into the build ({embedded-io}, {embedded-io-async}, {both}); returned values, contents and memory image must be identical, results Ok, async futures Ready on the first poll. A configuration that does not build is reported as a violation.", "§4 C16"),
  "C17": ("model_checking", "explicit-state BFS with an allocation monitor, per feature configuration",
-         "The C01 transition relation plus all observers, executed under a counting global allocator in three builds (no features, alloc, std): zero allocations inside any non-panicking crate call except boxed()/to_vec().", "§4 C17"),
+         "The C01 transition relation plus all observers, executed under a counting global allocator in three builds (no features, alloc, std): zero allocations inside any non-panicking crate call except boxed()/to_vec(); the byte-I/O impls incl. read_exact/write_all likewise; a #![no_std] static library without an allocator is linked against the no-feature build.", "§4 C17"),
  "C18": ("model_checking", "differential transcript of complete case spaces between nightly/default and nightly/unstable builds",
          "The nightly/default build enumerates histories (BFS) and writes one transcript line per (history, action, fault point) over the C01-C12 alphabets incl. the fault spaces; the nightly/unstable build replays the same histories; transcripts must be identical line by line. stable/default is a toolchain-drift control.", "§4 C18"),
  "C19": ("model_checking", "exhaustive depth-bounded enumeration of action sequences (no state merging) at extreme capacities with a ZST",
